@@ -5,7 +5,8 @@ Import ListNotations.
 From Osmo Require Import Base.DecModel CL.CLPool CL.CLSwap CL.CLStep CLR.Accum CLR.Rewards CLR.RSwap CLR.RStep C07.LP
   C08.Proj C08.Telescope C08.View C08.Static C08.Ops C08.OpInside C08.SwapTrace C08.Crux C08.Check
   C08.Claim C08.Conseq C08.Frame C08.Never C08.SwapWf C08.Dom C08.StaticOk C08.Final
-  C07.Base C08.Paid C08.PaidOps C08.PaidSwap C08.PaidHist C08.Modify C08.Twins.
+  C07.Base C08.Paid C08.PaidOps C08.PaidSwap C08.PaidHist C08.Modify C08.Twins
+  C08.IncAcc C08.Inc C08.IncList C08.IncStage C08.IncOps C08.IncSwap C08.IncHist.
 Open Scope Z_scope.
 
 (* ---- the reward model extends the shared pool model conservatively ---- *)
@@ -342,4 +343,71 @@ Proof.
   intros rs ops. let v := eval vm_compute in rs in assert (E : rs = v) by (vm_compute; reflexivity). rewrite E.
   split; [eexists; split; vm_compute; reflexivity|]. split; [reflexivity|]. split; [reflexivity|].
   eexists. split; [vm_compute; reflexivity|]. split; [vm_compute; reflexivity|]. split; vm_compute; reflexivity.
+Qed.
+
+(* ==== the incentive account covers what the positions can claim and what the records still have to emit (C08/Inc*.v) ==== *)
+(* bringing the uptime accumulators up to the block time: (growth per unit of liquidity, summed over the six accumulators) x
+   liquidity + (remaining emission afterwards) x scaling  <=  (remaining emission before) x scaling *)
+Theorem C08_uptime_accrual_le_emitted : forall w liq now w' d, update_uptime w liq now = Some w' -> recs_ok (rw_recs w) -> 0 < rw_inc_scaling w ->
+  usum (length (rw_up w)) (fun u => sel_G (CU u d) w' - sel_G (CU u d) w) * liq + remD d (rw_recs w') * rw_inc_scaling w
+    <= remD d (rw_recs w) * rw_inc_scaling w.
+Proof. intros w liq now w' d H OK Hi. destruct (update_uptime_spec _ _ _ _ d H OK Hi) as [_ [_ [_ [_ [_ [SM _]]]]]]. exact SM. Qed.
+Print Assumptions C08_uptime_accrual_le_emitted.
+
+(* every operation: invariant PII (every open position has a record with shares = liquidity and non-negative unclaimed rewards in each
+   of the six uptime accumulators; incentive records have positive rates and non-negative remaining amounts) and the potential
+   2 * (sum owed over accumulators and positions + remaining emission x scaling) - 2 * balance x scaling x 10^18 *)
+Theorem C08_incentive_account_step : forall rs o rs' r d, PII rs -> rhandler rs o = Some (rs', r) ->
+  PII rs' /\ isc_of rs' = isc_of rs /\ PhiI d rs' <= PhiI d rs + icost o * (Z.of_nat NU * P18).
+Proof. exact inc_handler. Qed.
+Print Assumptions C08_incentive_account_step.
+
+(* TOTAL_CLAIMABLE_LE_PAID, incentives, all histories: collected + forfeitable incentives of all open positions <= incentive account.
+   PARTIAL in the same sense as the spread-reward statement: claim queries succeed; (roundings + open positions) x 6 < 2 x scaling. *)
+Theorem C08_total_incentives_le_paid_partial : forall sp spf ssc isc users t ops d, 0 < sp -> 0 <= spf <= 500000000000000000 -> 0 < isc ->
+  let rs0 := rinit sp spf ssc isc users t in
+  let rs := rrun rs0 ops in
+  (forall p, In p (s_pos (r_base rs)) -> claimable_incentives rs (ps_id p) <> None) ->
+  (hist_icost rs0 ops + Z.of_nat (length (s_pos (r_base rs)))) * Z.of_nat NU < 2 * isc ->
+  zsum (iclaim_of d rs) (s_pos (r_base rs)) <= inc_bal d rs.
+Proof. exact total_incentives_le_paid. Qed.
+Print Assumptions C08_total_incentives_le_paid_partial.
+
+(* ... together with what the incentive records still have to emit (after they are brought up to the block time, as every claim
+   query does): strictly less than balance + 1 token *)
+Theorem C08_incentives_and_remaining_covered : forall rs d K, PII rs -> PhiI d rs <= K * (Z.of_nat NU * P18) ->
+  (forall p, In p (s_pos (r_base rs)) -> claimable_incentives rs (ps_id p) <> None) ->
+  0 <= K -> (K + Z.of_nat (length (s_pos (r_base rs)))) * Z.of_nat NU < 2 * isc_of rs ->
+  s_pos (r_base rs) <> [] ->
+  exists w1, update_uptime (r_rw rs) (p_liq (s_pool (r_base rs))) (s_time (r_base rs)) = Some w1 /\
+    zsum (iclaim_of d rs) (s_pos (r_base rs)) * P18 + remD d (rw_recs w1) < (inc_bal d rs + 1) * P18.
+Proof. exact inc_claims_remaining_covered. Qed.
+Print Assumptions C08_incentives_and_remaining_covered.
+
+(* two positions, two incentives on different uptimes, time, a crossing swap, a collect before the uptime is met (finding C08-F1: the
+   forfeited amount stays in the account), a partial withdrawal: all queries succeed, the cost counter is small, claims are positive *)
+Example C08_total_incentives_le_paid_nonvacuous :
+  let rs0 := rinit 0x64 0x71afd498d0000 0x2cd76fe086b93ce2f768a00b22a00000000000 0x2cd76fe086b93ce2f768a00b22a00000000000
+          [(0xc9f2c9cd04674edea40000000, 0xc9f2c9cd04674edea40000000); (0xc9f2c9cd04674edea40000000, 0xc9f2c9cd04674edea40000000);
+           (0xc9f2c9cd04674edea40000000, 0xc9f2c9cd04674edea40000000)] 0x6553f100 in
+  let ops := [RBase (OCreate 0x0 0x3b9aca00 0x3b9aca00 0x0 0x0 (-0x186a0) 0x186a0);
+              RBase (OCreate 0x1 0x989680 0x0 0x0 0x0 0x3e8 0xbb8);
+              RIncentive 0x2 0x0 0xf4240 0xde0b6b3a7640000 0x0 0x0;
+              RIncentive 0x2 0x1 0xf4240 0xde0b6b3a7640000 0x0 0x3;
+              RBase (OTime 0x64);
+              RBase (OSwapIn 0x2 false 0x1c9c380 0x1);
+              RBase (OTime 0x32);
+              RCollectInc 0x0 [0x1];
+              RBase (OWithdraw 0x0 0x1 0x3e8);
+              RBase (OTime 0xa)] in
+  let rs := rrun rs0 ops in
+  (forall p, In p (s_pos (r_base rs)) -> claimable_incentives rs (ps_id p) <> None) /\
+  hist_icost rs0 ops = 5 /\ length (s_pos (r_base rs)) = 2%nat /\
+  0 < zsum (iclaim_of false rs) (s_pos (r_base rs)) <= inc_bal false rs /\ 0 < zsum (iclaim_of true rs) (s_pos (r_base rs)) <= inc_bal true rs.
+Proof.
+  intros rs0 ops rs.
+  let v := eval vm_compute in rs in assert (E : rs = v) by (vm_compute; reflexivity).
+  split.
+  - rewrite E. intros p [H|[H|[]]]; subst p; vm_compute; discriminate.
+  - split; [vm_compute; reflexivity|]. rewrite E. split; [reflexivity|]. split; split; vm_compute; try reflexivity; discriminate.
 Qed.
